@@ -18,7 +18,7 @@ import random
 
 import numpy as np
 
-from .. import cards, common, recorder
+from .. import cards, common, recorder, session
 
 NAMES = {"F2": "F2_total", "FL": "FL_total", "XS": "XSHERANCAVG_total", "F2s": "F2"}   # "F2s": the short card spelling of F2_total
 RNAMES = {v: k for k, v in NAMES.items()}
@@ -314,6 +314,8 @@ def run(ctx):
         key = f"history:iron:{common.oid_of('C14', dict(tmc=t, ncalls=n, plan=p))}:{clause}"
         ctx.violation(key, f"{clause} in recorded run {desc}", dict(kind="C14", job=[tid, t, n, p, "iron"], clause=clause))
     selftest(ctx, [t for t in traces if t[0]["tid"] not in bad], hdr, len(dig))
+    # the level above one runner: several runners of different configurations alive in one process (Session.tla)
+    session.run(ctx)
 
 
 def selftest(ctx, good, hdr, ndig):
@@ -357,6 +359,8 @@ def selftest(ctx, good, hdr, ndig):
 
 
 def replay(ctx, obj):
+    if obj.get("kind") == "C14session":
+        return session.replay(ctx, obj)
     tid, t, n, p = obj["job"][:4]
     tgt = tuple(obj["job"][4:5])
     plans, hdr, xid = make_plans(obj.get("seed", 0), True)
